@@ -141,7 +141,7 @@ func fsInstances(seed uint64, tier string) []fsCfg {
 	if tier == "thorough" {
 		images = append(images, ImgSpec{Fixture: "linuxx64.efi.stub"}, ImgSpec{Fixture: "test.pecoff.signed"})
 		r := NewR(seed, "faultseq.images", 0)
-		for i := 0; i < 60; i++ {
+		for i := 0; i < 250; i++ {
 			images = append(images, ImgSpec{Gen: genPESpec(r.Fork(fmt.Sprint("img", i)))})
 		}
 	} else {
@@ -809,7 +809,7 @@ func (e *faultseqEngine) plan(seed uint64, tier string) []fsCase {
 	// phase 3: sampled multi-fault and persistent sequences
 	nmulti := 600
 	if tier == "thorough" {
-		nmulti = 20000
+		nmulti = 200000
 	}
 	r := NewR(seed, "faultseq.multi", 0)
 	for i := 0; i < nmulti; i++ {
